@@ -9,7 +9,7 @@ use crate::wire;
 use crate::world::{Cond, Opts, Outcome, Scenario};
 use std::collections::{BTreeMap, BTreeSet};
 
-pub const PROGRAMS: &[&str] = &["auto", "txn", "failtxn", "exttxn", "batch2", "pipelined", "copyin", "copyout", "copyfail", "copyout-srvfail", "copyin-srvfail", "bigrow"];
+pub const PROGRAMS: &[&str] = &["auto", "txn", "failtxn", "exttxn", "batch2", "pipelined", "copyin", "copyout", "copyfail", "copyout-srvfail", "copyin-srvfail", "bigrow", "copyin-then-batch", "ext-copyin"];
 
 fn ext(tagstr: &str, sql: &str) -> Vec<u8> {
     let mut b = wire::parse("", &format!("{} /*{}*/", sql, tagstr), &[]);
@@ -100,6 +100,35 @@ pub fn program(c: usize, prog: &str, user: &str, db: &str, pw: &str) -> Script {
                 .q(&format!("SELECT 2 /*{}*/", t(1, 0)))
                 .q(&format!("SELECT big /*{} rows=3 size=4000*/", t(2, 0)))
                 .q(&format!("SELECT 3 /*{}*/", t(3, 0)));
+        }
+        "ext-copyin" => {
+            // COPY IN over the extended protocol (libpq style): the batch's Sync is ignored by the server,
+            // the ReadyForQuery comes with the Sync sent after CopyDone
+            let mut b = wire::parse("", &format!("COPY t FROM STDIN /*{}*/", t(0, 0)), &[]);
+            b.extend(wire::bind("", "", &[], &[], &[]));
+            b.extend(wire::execute("", 0));
+            b.extend(wire::sync());
+            let mut end = wire::copy_done();
+            end.extend(wire::sync());
+            s = s
+                .send(b, "P B E S (COPY)")
+                .wait(Cond::CodeOrClosed(b'G', 1))
+                .send(wire::copy_data(format!("row1 {}\n", t(0, 1)).as_bytes()), "d")
+                .send_z(end, "c S")
+                .q(&format!("SELECT 3 /*{}*/", t(1, 0)));
+        }
+        "copyin-then-batch" => {
+            // an extended-protocol batch in the middle of COPY IN: the server aborts the COPY and answers with
+            // two ReadyForQuery; whatever the pooler does with that connection, nobody else may get the rest
+            let mut b = ext(&t(0, 2), "SELECT 2");
+            b.extend(wire::sync());
+            s = s
+                .send(wire::query(&format!("COPY t FROM STDIN /*{}*/", t(0, 0))), "Q COPY FROM STDIN")
+                .wait(Cond::CodeOrClosed(b'G', 1))
+                .send(wire::copy_data(format!("row1 {}\n", t(0, 1)).as_bytes()), "d")
+                .send_z(b, "P B E S (during COPY)")
+                .wait(Cond::TimeMs(0))
+                .q(&format!("SELECT 3 /*{}*/", t(1, 0)));
         }
         "copyfail" => {
             s = s
